@@ -8,6 +8,9 @@ ids = [p['id'] for p in props]
 EXPL = "exploration"; MC = "model_checking"
 checks = {
  # id: (category, technique, text, note, design_ref)
+ "C01": (MC, "explicit-state exploration of template programs (fragment-sequence DFS with sound pruning + grammar-shaped product families) executed on the real engine; structure decided by an html5lib-validated WHATWG tokenizer, differential against text/template's rendering and against inert data",
+   "All template programs over six fragment alphabets up to depth 4-6 (quick) / 5-7 (thorough), every lexical variant of a one-attribute tag (3.4M programs thorough) and of raw-text end tags are parsed, analysed and executed by the real engine for every control-path assignment; for each accepted program 53 distinguishing payloads per action must leave the token structure and final tokenizer state unchanged, and the inert rendering must have the author's structure without comments.",
+   "Trusted: oracle O1 (validated on 7028 html5lib tokenizer cases at setup; cross-checked against x/net/html on 1/8 of outputs, disagreements counted). Payload coverage is by distinguishing payloads; arbitrary bytes are covered compositionally via C10. Bounds as reported in evidence; pruning soundness is asserted at depth<=3.", "DESIGN.md §2 E2, §4 C01"),
  "C10": (EXPL, "bounded-exhaustive input enumeration (all byte strings to length 2/3, every 21-bit code point value, class alphabet to length 3/5) against a reference coercion and an html5lib-validated WHATWG tokenizer",
    "Every byte string up to the bound, every code point in three contexts and every ill-formed UTF-8 class is run through the real HTMLEscaped and judged by an independent reference (UTF-8 decoder, interchange-valid ranges, tokenizer). Exhaustive within the stated bounds; the function is a per-code-point map, so the bounded space covers its behaviour classes.",
    "Trusted: oracle O6/O1 implementations, Go's html.UnescapeString for the round-trip clause; strings longer than the bounds are assumed to behave as compositions of the covered pieces.", "DESIGN.md §4 C10"),
@@ -48,6 +51,7 @@ m = {
    "add_only": True,
  },
  "engines": [
+   {"name": "E2 template-program explorer", "path": "internal/tmplx", "serves_properties": ["C01","C02","C03","C04","C14"], "kind_free_text": "DFS over fragment sequences (auto-closed control blocks, helper templates) and cartesian product families; every program is parsed/analysed/executed by the real engine; pruning of infectious analysis errors with soundness assertion"},
    {"name": "E1 input enumerator", "path": "internal/enum", "serves_properties": ["C10","C11","C12","C13","C15","C16","C17","C18","C20"], "kind_free_text": "odometer over finite alphabets to a length bound, sharded over 16 workers, real functions called on every element"},
  ],
  "checks": [],
